@@ -116,6 +116,17 @@ def run_mux_case(case, judged):
                           summary=summary)
     from vmon.simkit import decoy
     decoy(rng, lambda: csr.Multiplexer(build_map(layout)[0], shadow_overlaps=layout["overlaps"]))
+    if rng.random() < 0.3:
+        mm.freeze()              # as Decoder.add / csr.Bridge / an explicit freeze() would
+        mon.count("frozen_maps")
+    # an independent, ACTIVE neighbour multiplexer (same layout, own registers) elaborated before the monitored one
+    neighbour = None
+    if rng.random() < 0.3 and len(layout["regs"]) <= 8 and layout["aw"] <= 8:
+        n_mm, _ = build_map(layout)
+        try:
+            neighbour = csr.Multiplexer(n_mm, shadow_overlaps=layout["overlaps"])
+        except ValueError:
+            neighbour = None
     dut = early_dut if early_dut is not None else csr.Multiplexer(mm, shadow_overlaps=layout["overlaps"])
     if early_dut is not None:
         mon.count("multiplexers_created_before_their_last_registers")
@@ -175,6 +186,15 @@ def run_mux_case(case, judged):
             ctx.set(bus.r_stb, inp["r_stb"])
             ctx.set(bus.w_stb, inp["w_stb"])
             ctx.set(bus.w_data, inp["w_data"])
+            if neighbour is not None:       # unrelated traffic next door must never be seen on the monitored bus
+                nb = neighbour.bus
+                ctx.set(nb.addr, rng.choice(mapped) if mapped else 0)
+                ctx.set(nb.r_stb, rng.getrandbits(1))
+                ctx.set(nb.w_stb, rng.getrandbits(1))
+                ctx.set(nb.w_data, bits(rng, dw))
+                for p_, _n, _r in n_res:
+                    if p_.element.access.readable() and p_.element.width:
+                        ctx.set(p_.element.r_data, bits(rng, p_.element.width) | 1)
             vals = []
             for r in regs:
                 v = biased_bits(rng, r["width"])
@@ -243,7 +263,12 @@ def run_mux_case(case, judged):
             model.advance(inp, vals)
             await ctx.tick()
 
-    simulate(Top({"mux": dut}), bench, mon)
+    n_res = list(neighbour.bus.memory_map.resources()) if neighbour is not None else []
+    if neighbour is not None:
+        mon.count("runs_with_active_neighbour_multiplexer")
+        simulate(Top([("neighbour", neighbour), ("mux", dut)]), bench, mon)
+    else:
+        simulate(Top({"mux": dut}), bench, mon)
     mon.count("cycles", mon.cycle + 1)
     mon.count("adds_refused_while_building", skipped_adds)
     mon.count("A1_multi_chunk_after_value_change", st["multi_chunk_a1_after_change"])
